@@ -21,8 +21,9 @@ ValidPool == {r \in {Rec(p, u, ps, us, NoPat) : p \in PPool, u \in UPool, ps \in
 \* arguments of add_record: no synonyms in the thorough tier to keep the branching finite
 ArgPool == IF Tier = "quick"
            THEN {r \in ValidPool : r.ps = {} /\ r.us = {}}
-                \cup {r \in ValidPool : r.us = {} /\ r.ps # {} /\ r.p = <<1>>}
-                \cup {r \in ValidPool : r.ps = {} /\ r.us # {} /\ r.u = <<1>>}
+                \cup {r \in ValidPool : r.us = {} /\ r.ps = {<<2>>} /\ r.p = <<1>>}
+                \cup {r \in ValidPool : r.ps = {} /\ r.us = {<<2>>} /\ r.u = <<1>>}
+                \cup {r \in ValidPool : r.us = {} /\ r.ps = {<<7, 7>>} /\ r.p = <<6>> /\ r.u = <<1, 3>>}
            ELSE {r \in ValidPool : r.ps = {} /\ r.us = {}}
                 \cup {r \in ValidPool : r.us = {} /\ r.ps # {} /\ r.p \in {<<>>, <<1>>}}
                 \cup {r \in ValidPool : r.ps = {} /\ r.us # {} /\ r.u = <<1>>}
@@ -30,7 +31,7 @@ Probes == StringsUpTo({1, 2, 3, 4}, 2)
 
 MCNext ==
   \/ /\ Len(hist) = 0
-     /\ \E d \in Delims : ANew(<<>>, d) \/ \E r \in ValidPool : ANew(<<r>>, d)
+     /\ \E d \in Delims : ANew(<<>>, d) \/ \E r \in (IF Tier = "quick" THEN ArgPool ELSE ValidPool) : ANew(<<r>>, d)
   \/ /\ Len(hist) >= 1 /\ Len(hist) <= MaxOps /\ Len(convs) = 1
      /\ \E r \in ArgPool, cs \in BOOLEAN, mg \in BOOLEAN : AAdd(1, r, cs, mg, "record")
 MCSpec == Init /\ [][MCNext]_vars
